@@ -115,10 +115,10 @@ def orcRecord (adv : Prov) (toks : List String) : String × Prov :=
           | some (_, _, ef) => if forced then dErr.toNat! == 0 else ef ≤ dErr.toNat!
           | none => true
       match callProv hasErrCtl forced projInterp adv obs with
-      | none => ("O orc EXC X " ++ toString nFail, adv)
+      | none => ("O orc EXC X " ++ toString nFail ++ " X", adv)
       | some (a2, r) =>
         if !efOK then ("O orc ERRTEST_COUNT", a2) else
-        ("O orc " ++ status ++ " " ++ provChar r ++ " " ++ toString nFail, a2)
+        ("O orc " ++ status ++ " " ++ provChar r ++ " " ++ toString nFail ++ " " ++ provChar a2, a2)
   | _ => ("O orc PARSE", adv)
 
 def tagOf (toks : List String) : String :=
